@@ -17,6 +17,7 @@ pub mod page;
 pub mod retry;
 pub mod route;
 pub mod smoke;
+pub mod tablet;
 pub mod timestamp;
 
 /// Which family belongs to which property (a family is generated for that property only).
@@ -40,7 +41,10 @@ pub fn generate(pid: &str, rng: &mut Rng, tier: Tier, emit: &mut dyn FnMut(Strin
         Some("evict") => evict::generate(rng, tier, emit),
         Some("keyspace") => keyspace::generate(rng, tier, emit),
         Some("page") => page::generate(rng, tier, emit),
-        Some("route") => route::generate(rng, tier, emit),
+        Some("route") => {
+            route::generate(rng, tier, emit);
+            tablet::generate(rng, tier, emit);
+        }
         Some("timestamp") => timestamp::generate(rng, tier, emit),
         _ => {}
     }
@@ -59,6 +63,7 @@ pub fn run(_pid: &str, case: &str, ctx: &mut Ctx) -> String {
         "page" => page::run(&words[2..], ctx),
         "route" => route::run(&words[2..], ctx),
         "smoke" => smoke::run(&words[2..], ctx),
+        "tablet" => tablet::run(&words[2..], ctx),
         "timestamp" => timestamp::run(&words[2..], ctx),
         // developer aid: `e2e gen <Cxx> <quick|thorough> <seed>` prints that property's e2e cases joined by ';'
         "gen" if words.len() == 5 => {
